@@ -16,7 +16,7 @@ use rustfft::FftDirection;
 use serde_json::json;
 use std::collections::HashMap;
 
-pub const POOLS: [&[usize]; 5] = [
+pub const POOLS: [&[usize]; 7] = [
     // 2^a 3^b chain of 3456 with Rader primes whose inner lengths lie on it
     &[12, 36, 72, 144, 288, 576, 1152, 3456, 37, 73, 577, 1153],
     // powers of two, Fermat primes (Rader over 2^k), a Bluestein prime
@@ -27,6 +27,11 @@ pub const POOLS: [&[usize]; 5] = [
     &[47, 59, 118, 282, 96, 128, 144, 192, 256, 288, 83, 166],
     // small lengths and 3^k
     &[0, 1, 2, 3, 9, 27, 81, 243, 729, 6, 18, 54],
+    // a Bluestein prime and EVERY admissible length of its inner transform (2p-1 .. next power of two): whatever of these is
+    // cached, the transform returned for p (and for 2p) must not depend on it
+    &[59, 118, 117, 119, 120, 121, 122, 124, 125, 126, 127, 128],
+    // the same for 83 (165..256 sampled: smooth, prime and power-of-two candidates), plus large powers of two
+    &[83, 166, 165, 168, 176, 180, 192, 200, 216, 243, 256, 4096],
 ];
 
 type Req = (usize, FftDirection);
@@ -152,7 +157,7 @@ fn all_requests(pool: &[usize]) -> Vec<Req> {
     v
 }
 
-fn histories_for<T: Real + Elem>(ctx: &mut Ctx, item: &mut usize, sample_den: u64, random_count: usize) {
+fn histories_for<T: Real + Elem>(ctx: &mut Ctx, item: &mut usize, sample_den: u64, random_count: usize, sat_count: usize) {
     let mut refs = RefCache::<T> { m: HashMap::new() };
     for kind in ALL_KINDS {
         for (pi, pool) in POOLS.iter().enumerate() {
@@ -185,6 +190,23 @@ fn histories_for<T: Real + Elem>(ctx: &mut Ctx, item: &mut usize, sample_den: u6
                     }
                     replay_history(ctx, &mut refs, kind, seq, (si + qi) % 4 == 0);
                 }
+            }
+            // saturation histories: every request of the pool, in a seeded random order, on one planner (and its twin): the
+            // later requests are answered with 10..20 other transforms in the caches
+            for ri in 0..sat_count {
+                let idx = *item;
+                *item += 1;
+                let label = format!("hist-saturate {} {} pool{} #{}", kind.name(), T::ELEM, pi, ri);
+                if !ctx.scenario(idx, &label) {
+                    continue;
+                }
+                let mut rng = Rng::new(ctx.seed.wrapping_mul(131) + (pi * 7919 + ri) as u64);
+                let mut seq: Vec<Req> = reqs.clone();
+                for i in (1..seq.len()).rev() {
+                    let j = rng.below(i as u64 + 1) as usize;
+                    seq.swap(i, j);
+                }
+                replay_history(ctx, &mut refs, kind, &seq, ri % 2 == 1);
             }
             // random longer histories over the pool (length <= 12, repeats allowed)
             for ri in 0..random_count {
@@ -236,7 +258,7 @@ fn tlc_histories<T: Real + Elem>(ctx: &mut Ctx, item: &mut usize, lines: &[(Stri
 }
 
 pub fn run_c10(ctx: &mut Ctx, scenarios: &str) {
-    let (sample_den, random_count) = if ctx.quick() { (97, 6) } else { (5, 60) };
+    let (sample_den, random_count, sat_count) = if ctx.quick() { (97, 6, 3) } else { (5, 60, 24) };
     let mut item = 0usize;
     if !scenarios.is_empty() {
         let mut lines: Vec<(String, Vec<usize>)> = Vec::new();
@@ -253,8 +275,8 @@ pub fn run_c10(ctx: &mut Ctx, scenarios: &str) {
         tlc_histories::<f32>(ctx, &mut item, &lines, keep);
         tlc_histories::<f64>(ctx, &mut item, &lines, keep);
     }
-    histories_for::<f32>(ctx, &mut item, sample_den, random_count);
-    histories_for::<f64>(ctx, &mut item, sample_den, random_count);
+    histories_for::<f32>(ctx, &mut item, sample_den, random_count, sat_count);
+    histories_for::<f64>(ctx, &mut item, sample_den, random_count, sat_count);
 }
 
 #[allow(dead_code)]
